@@ -2050,6 +2050,12 @@ func marshalTuple(info TypeInfo, value interface{}) ([]byte, error) {
 				return nil, err
 			}
 
+			if data == nil {
+				// a nil encoding (e.g. a typed nil pointer) is a null element
+				buf = appendInt(buf, int32(-1))
+				continue
+			}
+
 			n := len(data)
 			buf = appendInt(buf, int32(n))
 			buf = append(buf, data...)
@@ -2082,6 +2088,12 @@ func marshalTuple(info TypeInfo, value interface{}) ([]byte, error) {
 				return nil, err
 			}
 
+			if data == nil {
+				// a nil encoding (e.g. a typed nil pointer) is a null element
+				buf = appendInt(buf, int32(-1))
+				continue
+			}
+
 			n := len(data)
 			buf = appendInt(buf, int32(n))
 			buf = append(buf, data...)
@@ -2106,6 +2118,12 @@ func marshalTuple(info TypeInfo, value interface{}) ([]byte, error) {
 			data, err := Marshal(elem, item.Interface())
 			if err != nil {
 				return nil, err
+			}
+
+			if data == nil {
+				// a nil encoding (e.g. a typed nil pointer) is a null element
+				buf = appendInt(buf, int32(-1))
+				continue
 			}
 
 			n := len(data)
